@@ -247,26 +247,6 @@ def rule_r3(ctx):
             ctx.r.violation(rid, key_of(f, None, "forwarded-parse-window"), "the Forwarded elements that are parsed are `%s`, not the whole header: a malformed element outside the trusted window is never looked at and the request is served instead of being answered with 400" % (norm(src)[:60] if src is not None else "?"), f.loc(it.ast))
     # host[:port] / addr[:port] splitting: an IPv6 literal is recognised by its *last* character (`[v6]` has no port,
     # `[v6]:port` has one) - every rsplit(':', 1) of a hop value is guarded by `':' in x` and by x not ending in ']'
-    nsplit = 0
-    for nd, c in find_calls(gcf, lambda c: isinstance(c.func, ast.Attribute) and c.func.attr in ("rsplit", "rpartition") and c.args and isinstance(c.args[0], ast.Constant) and c.args[0].value == ":"):
-        x = norm(c.func.value)
-        nsplit += 1
-        gs = guards_of(gcf, nd)
-
-        def last_not_bracket(t, pol, x=x):
-            if isinstance(t, ast.Compare) and len(t.ops) == 1 and isinstance(t.ops[0], ast.Eq) and norm(t.left) == x + "[-1]" and isinstance(t.comparators[0], ast.Constant) and t.comparators[0].value == "]":
-                return not pol
-            if isinstance(t, ast.Call) and isinstance(t.func, ast.Attribute) and t.func.attr == "endswith" and norm(t.func.value) == x and t.args and isinstance(t.args[0], ast.Constant) and t.args[0].value == "]":
-                return not pol
-            return False
-        if any(last_not_bracket(t, pol) for (t, pol) in gs):
-            ctx.r.ok(rid, "%s is split at its last ':' only when it does not end in ']'" % x, f.loc(nd.ast))
-        else:
-            ctx.r.violation(rid, key_of(f, None, "ipv6-port-test::" + x), "%s is split into host and port without the test that it does not *end* in ']' (guards: %s): `[v6]:port` keeps its port in the host name, or a bare `[v6]` literal is cut at a colon inside the address" % (x, [norm(t)[:30] for (t, _p) in gs][-3:]), f.loc(nd.ast))
-    ctx.r.floor(rid, nsplit, 2, "host:port / addr:port splits")
-    # a bare IPv6 address in X-Forwarded-For gets its brackets - and only that: the hop is wrapped when it holds a ':' and no
-    # '.' and does not already end in ']' (an `a.b.c.d:port` hop wrapped as well keeps its port inside the address)
-    nwrap = 0
     def _conj(t, pol, out):
         """(test, polarity) pairs implied by `t` having truth value `pol`, in the canonical polarity of the flow graph"""
         if isinstance(t, ast.UnaryOp) and isinstance(t.op, ast.Not):
@@ -312,6 +292,26 @@ def rule_r3(ctx):
                 continue
             yield from _walk_no_defs(c)
 
+    nsplit = 0
+    for nd, c in find_calls(gcf, lambda c: isinstance(c.func, ast.Attribute) and c.func.attr in ("rsplit", "rpartition") and c.args and isinstance(c.args[0], ast.Constant) and c.args[0].value == ":"):
+        x = norm(c.func.value)
+        nsplit += 1
+        gs = list(guards_of(gcf, nd)) + _expr_guards(nd.ast, c)
+
+        def last_not_bracket(t, pol, x=x):
+            if isinstance(t, ast.Compare) and len(t.ops) == 1 and isinstance(t.ops[0], ast.Eq) and norm(t.left) == x + "[-1]" and isinstance(t.comparators[0], ast.Constant) and t.comparators[0].value == "]":
+                return not pol
+            if isinstance(t, ast.Call) and isinstance(t.func, ast.Attribute) and t.func.attr == "endswith" and norm(t.func.value) == x and t.args and isinstance(t.args[0], ast.Constant) and t.args[0].value == "]":
+                return not pol
+            return False
+        if any(last_not_bracket(t, pol) for (t, pol) in gs):
+            ctx.r.ok(rid, "%s is split at its last ':' only when it does not end in ']'" % x, f.loc(nd.ast))
+        else:
+            ctx.r.violation(rid, key_of(f, None, "ipv6-port-test::" + x), "%s is split into host and port without the test that it does not *end* in ']' (guards: %s): `[v6]:port` keeps its port in the host name, or a bare `[v6]` literal is cut at a colon inside the address" % (x, [norm(t)[:30] for (t, _p) in gs][-3:]), f.loc(nd.ast))
+    ctx.r.floor(rid, nsplit, 2, "host:port / addr:port splits")
+    # a bare IPv6 address in X-Forwarded-For gets its brackets - and only that: the hop is wrapped when it holds a ':' and no
+    # '.' and does not already end in ']' (an `a.b.c.d:port` hop wrapped as well keeps its port inside the address)
+    nwrap = 0
     wraps = []
     for nd in gcf.nodes:
         if nd.ast is None or nd.kind not in ("stmt", "branch", "test") or isinstance(nd.ast, (ast.FunctionDef, ast.AsyncFunctionDef, ast.ClassDef)):
@@ -405,9 +405,36 @@ def rule_r4(ctx):
                 # strips applied to the whole header value before it is split into elements are outside this loop's body
                 if any(c is y for st in lp.body for y in ast.walk(st)):
                     ctx.r.violation(rid, key_of(f, None, "pre-stripped::" + norm(c.func.value)[:30]), "%s removes padding before the padding tests run: a padded forwarded-pair is accepted instead of refused" % norm(c)[:50], f.loc(c))
-    has(lambda b: _ne(b) and "equals" in norm(b.ast) and "'='" in norm(b.ast), "a forwarded-pair without '='", "pair-without-equals")
-    has(lambda b: _ne(b) and {cmp_fact(b.ast)[1], cmp_fact(b.ast)[2]} == {"token.strip()", "token"}, "a padded token", "padded-token")
-    has(lambda b: _ne(b) and {cmp_fact(b.ast)[1], cmp_fact(b.ast)[2]} == {"value.strip()", "value"}, "a padded value", "padded-value")
+    # names that are plain copies of one another stand for the same text (`token = token__helper2` left by an expanded helper)
+    import re as _re
+    par = {}
+
+    def find(x):
+        while par.get(x, x) != x:
+            x = par[x]
+        return x
+    for st in ast.walk(f.node):
+        if isinstance(st, ast.Assign) and len(st.targets) == 1 and isinstance(st.targets[0], ast.Name) and isinstance(st.value, ast.Name):
+            a, b2 = find(st.targets[0].id), find(st.value.id)
+            if a != b2:
+                keep, drop = (a, b2) if "__" not in a else (b2, a)
+                par[drop] = keep
+
+    def canon(txt):
+        return _re.sub(r"[A-Za-z_][A-Za-z_0-9]*", lambda m: find(m.group(0)), txt)
+
+    def sides(b):
+        c = cmp_fact(b.ast)
+        return {canon(c[1]), canon(c[2])}
+
+    def no_equals(b):
+        if _ne(b) and "equals" in norm(b.ast) and "'='" in norm(b.ast):
+            return True
+        # the same refusal spelled as a membership test: `'=' not in pair`
+        return isinstance(b.ast, ast.Compare) and len(b.ast.ops) == 1 and isinstance(b.ast.ops[0], ast.In) and isinstance(b.ast.left, ast.Constant) and b.ast.left.value == "=" and b.polarity is False
+    has(no_equals, "a forwarded-pair without '='", "pair-without-equals")
+    has(lambda b: _ne(b) and sides(b) == {"token.strip()", "token"}, "a padded token", "padded-token")
+    has(lambda b: _ne(b) and sides(b) == {"value.strip()", "value"}, "a padded value", "padded-value")
     for var, nm in (("forwarded_proto", "proto"), ("forwarded_port", "port")):
         ok = False
         for b in g.nodes:
